@@ -162,10 +162,12 @@ Inductive failure := FCrash | FDeadlock.
      fx22  max initialised from the first value                     (F22)
      fxN1  BucketStats.Set installs rules only when all are well-formed:
            a malformed specification changes nothing                (C19-N1)
-     fxN2  AverageStats unlocks a source that lacks the measure     (C19-N2) *)
-Record fixes := mkFix { fx21 : bool; fx22 : bool; fxN1 : bool; fxN2 : bool }.
-Definition pinned : fixes := mkFix false false false false.
-Definition all_fixed : fixes := mkFix true true true true.
+     fxN2  AverageStats unlocks a source that lacks the measure     (C19-N2)
+     fxN3  handleConnection does not forward the half-filled struct of a
+           message that failed to decode                            (C19-N3) *)
+Record fixes := mkFix { fx21 : bool; fx22 : bool; fxN1 : bool; fxN2 : bool; fxN3 : bool }.
+Definition pinned : fixes := mkFix false false false false false.
+Definition all_fixed : fixes := mkFix true true true true true.
 
 Record mstate := mkM {
   objs : list stats;         (* every *Stats object created so far; 0 is the monitor's global one *)
@@ -192,7 +194,10 @@ Inductive op :=
 | OHeader (obj : nat)                             (* Stats.WriteHeader *)
 | OValues (obj : nat)                             (* Stats.WriteValues, then the accessors of every value *)
 | OGet (idx : Z)                                  (* BucketStats.Get(idx), then the accessors *)
-| OAverage (srcs : list nat).                     (* AverageStats(srcs): a further object *)
+| OAverage (srcs : list nat)                      (* AverageStats(srcs): a further object *)
+| OWireErr (name : string) (x : Q) (host : Z).    (* handleConnection: a message that failed to decode
+                                                     (first error of its connection), leaving these
+                                                     values in the singleMeasure struct *)
 
 Inductive out :=
 | OutNone
@@ -353,6 +358,10 @@ Definition mstep (fx : fixes) (m : mstate) (o : op) : mstate * out :=
                   (with_objs m (os' ++ [mkStats (statics s0) kvs false]), OutNone)
               end)
         end
+    | OWireErr k x h =>
+        (* the pinned loop logs the error and falls through to the dispatch *)
+        if fxN3 fx then (m, OutNone)
+        else if String.eqb (lower k) "end" then (m, OutNone) else do_measure m k x h
     end
   end.
 
